@@ -9,6 +9,10 @@
 #include <cstdlib>
 #include <map>
 #include <vector>
+#include <string>
+#include <thread>
+#include <atomic>
+#include <iterator>
 #include <complex>
 #include <functional>
 #include "cxx_api.h"
@@ -73,7 +77,10 @@ static void wit_s(char *w, size_t n, const char *s) { snprintf(w, n, "{\"s\":\"%
 static void drive_objects() {
   static const char *FORM[] = {"", "H", "H2O", "Ca5(PO4)3OH", "(((H)))", "H2O)", "(H2O", "()", "H0", "2O", "Rf", "Xx", "CuI2ww", "Fe2O3", "Fe 2", "U0.5Pu0.5O2", "Water, Liquid", "Si", "55Fe", "241Am", "Diamond", "nope"};
   char w[300];
-  for (const char *s : FORM) {
+  // names far longer than any fixed buffer: three wrappers echo the caller's name in the message they carry
+  static std::string long1 = "Nq" + std::string(609, 'q'), long2 = "Zz" + std::string(5009, 'z');
+  std::vector<const char *> forms(std::begin(FORM), std::end(FORM)); forms.push_back(long1.c_str()); forms.push_back(long2.c_str());
+  for (const char *s : forms) {
     wit_s(w, sizeof w, s);
     { xrl_error *e = nullptr; long l0 = W_live; struct compoundData *c = ::CompoundParser(s, &e); bool ok = e == nullptr; int code = e ? (int)e->code : -1; std::string msg = e ? e->message : ""; xrl_clear_error(&e);
       bool same = false; std::string what; long lx0 = W_live; int xc = guarded([&] { xrlpp::compoundData x = xrlpp::CompoundParser(s); same = c && x.nElements == c->nElements && veq(x.Elements, c->Elements, c->nElements) && veq(x.massFractions, c->massFractions, c->nElements) && veq(x.nAtoms, c->nAtoms, c->nElements) && biteq(x.nAtomsAll, c->nAtomsAll) && biteq(x.molarMass, c->molarMass); }, what);
@@ -236,12 +243,35 @@ static void drive_crystals(bool thorough, int part, int np) {
   }
   for (int i = 0; i < nc; i++) ::xrlFree(names[i]); ::xrlFree(names);
 }
+// Failing and succeeding wrapper calls from several threads at once: the C error channel is per call, so every exception must still carry
+// the message the C function reports for that thread's own arguments, and every value must equal the serial one.
+static void drive_threads() {
+  const int NT = 4, ROUNDS = 4000; std::atomic<long> nmis(0), calls(0);
+  std::vector<std::string> names, want_nist, want_cryst; std::vector<double> want_cs;
+  for (int t = 0; t < NT; t++) { names.push_back("no such thing " + std::string(8 + 37 * t, (char)('a' + t)));
+    xrl_error *e = nullptr; ::GetCompoundDataNISTByName(names[t].c_str(), &e); want_nist.push_back(e ? e->message : ""); xrl_clear_error(&e);
+    ::Crystal_GetCrystal(names[t].c_str(), nullptr, &e); want_cryst.push_back(e ? e->message : ""); xrl_clear_error(&e);
+    want_cs.push_back(::CS_Total(20 + t, 10.0 + t, nullptr)); }
+  std::string want_z, want_e; { xrl_error *e = nullptr; ::CS_Total(-1, 1.0, &e); want_z = e ? e->message : ""; xrl_clear_error(&e); ::CS_Total(26, -1.0, &e); want_e = e ? e->message : ""; xrl_clear_error(&e); }
+  std::vector<std::thread> th;
+  for (int t = 0; t < NT; t++) th.emplace_back([&, t] {
+    for (int r = 0; r < ROUNDS; r++) { std::string what; long bad = 0;
+      if (guarded([&] { xrlpp::GetCompoundDataNISTByName(names[t]); }, what) != X_INVALID || what != want_nist[t]) bad++;
+      if (guarded([&] { xrlpp::Crystal::GetCrystal(names[t]); }, what) != X_INVALID || what != want_cryst[t]) bad++;
+      if (guarded([&] { xrlpp::CS_Total(-1, 1.0); }, what) != X_INVALID || what != want_z) bad++;
+      if (guarded([&] { xrlpp::CS_Total(26, -1.0); }, what) != X_INVALID || what != want_e) bad++;
+      double v = 0; if (guarded([&] { v = xrlpp::CS_Total(20 + t, 10.0 + t); }, what) != X_NONE || !biteq(v, want_cs[t])) bad++;
+      nmis += bad; calls += 5; } });
+  for (auto &x : th) x.join();
+  printf("{\"k\":\"mt\",\"threads\":%d,\"calls\":%ld,\"mismatch\":%ld}\n", NT, calls.load(), nmis.load());
+}
 int main(int argc, char **argv) {
   int part = argc > 1 ? atoi(argv[1]) : 0, np = argc > 2 ? atoi(argv[2]) : 1; bool thorough = argc > 3 && !strcmp(argv[3], "thorough");
   if (!freopen("/dev/null", "w", stderr)) return 2;
   build_lists(thorough); int idx = 0;
   for (const CxxFn *f = CXX_TABLE; f->name; f++, idx++) if (idx % np == part) { drive(*f, thorough); printf("{\"k\":\"drove\",\"fn\":\"%s\"}\n", f->name); }
   drive_crystals(thorough, part, np);
+  if (part == 1 % np) drive_threads();
   if (part == 0) { drive_objects(); for (const char **s = CXX_SKIPPED; *s; s++) printf("{\"k\":\"skipped\",\"fn\":\"%s\"}\n", *s); }
   for (auto &kv : table) printf("{\"k\":\"xcls\",%s,\"n\":%ld,\"w\":%s}\n", kv.first.c_str(), kv.second.n, kv.second.wit.c_str());
   printf("{\"k\":\"sum\",\"calls\":%ld,\"classes\":%zu}\n", ncalls, table.size());
